@@ -139,7 +139,12 @@ let () =
                          (match disc_ord_after p.pd (n_of_int ins) (n_of_int root) b.pd with
                           | Some true -> ()
                           | _ -> ins_bad := (!ins_calls, "order lost although the hypotheses of the theorem hold: " ^ b.raw_objs.(ins)) :: !ins_bad)
-                     | Some (true, true) -> incr thm_fail
+                     | Some (true, true) ->
+                         (* put-back: inside failed_insertion_leaves_the_tree_unchanged; its conclusion on the C trees *)
+                         incr thm_fail;
+                         (match fail_left_tree_unchanged b.pd p.pd (n_of_int root) with
+                          | Some true -> ()
+                          | _ -> ins_bad := (!ins_calls, "a failed insertion changed the tree: " ^ b.raw_objs.(ins)) :: !ins_bad)
                      | Some (false, _) -> incr thm_noord
                      | Some (true, false) -> incr thm_nohyp
                      | None -> incr thm_nohyp);
